@@ -1,5 +1,5 @@
 (* Properties_C18.v — C18: backups hold exactly the pre-patch bytes.  Statements only; proofs in Proofs_World.v. *)
-From PatchV Require Import Base Lines Hunk Options Parser World Driver Proofs_World.
+From PatchV Require Import Base Lines Hunk Options Parser World Driver Proofs_World Locator Formatter Applier LineParser Spec_Locate Spec_Apply Proofs_Conf Proofs_Reapply Proofs_Touch Proofs_Reverse Proofs_DriverMore.
 
 (* the name: prefix + path + suffix per -B / -z, '.orig' appended when neither is given *)
 Theorem backup_name_spec : forall o p,
@@ -52,3 +52,93 @@ Example backup_nonvacuous :
   | _ => False
   end.
 Proof. vm_compute. repeat split; reflexivity. Qed.
+
+(* ---------------------------------------------------------------------------------------------------------------
+   C18 at driver level (process_section, finalize_writes); proofs in Proofs_DriverMore.v, non-vacuity Examples and
+   whole-program vm_compute runs in Properties_DriverMore.v. *)
+(* two deferred writes to one regular file f of the working directory, at least one of which asks for the backup, none
+   taken for f yet in this run, nothing at the backup name: the backup holds the ORIGINAL bytes and mode (not what the
+   first write left), f holds the data of the second write, everything else is untouched *)
+Theorem series_backup_two_gen : forall o st w f c0 mode0 data1 data2 nn1 nn2 bk1 bk2 cf1 cf2 pa1 pa2,
+  let d1 := mkDef data1 f nn1 bk1 cf1 pa1 in
+  let d2 := mkDef data2 f nn2 bk2 cf2 pa2 in
+  let m1 := mode_after_write pa1 (created_mode (umask w)) in
+  bk1 || bk2 = true ->
+  fault w = None -> f <> [] -> ~ In 47%N f -> ~ In 47%N (backup_name o f) ->
+  lookup (fs w) f = Some (Reg c0 mode0) -> lookup (fs w) (backup_name o f) = None ->
+  existsb (str_eqb (backup_name o f)) (backed_up st) = false ->
+  owner_w (mode_before_write cf2 m1) = true ->
+  exists w',
+    finalize_writes o st [d1; d2] w = (Ok (with_backed_up st (backup_name o f)), w') /\
+    lookup (fs w') (backup_name o f) = Some (Reg c0 mode0) /\
+    lookup (fs w') f = Some (Reg data2 (mode_after_write pa2 (mode_before_write cf2 m1))) /\
+    (forall q, q <> f -> q <> backup_name o f -> lookup (fs w') q = lookup (fs w) q) /\
+    fault w' = None /\ umask w' = umask w.
+Proof. exact Proofs_DriverMore.series_backup_two_gen. Qed.
+Print Assumptions series_backup_two_gen.
+
+(* the case of the claim: only the SECOND write asks for the backup *)
+Theorem series_backup_two : forall o st w f c0 mode0 data1 data2 nn1 nn2 cf1 cf2 pa1 pa2,
+  let d1 := mkDef data1 f nn1 false cf1 pa1 in
+  let d2 := mkDef data2 f nn2 true cf2 pa2 in
+  let m1 := mode_after_write pa1 (created_mode (umask w)) in
+  fault w = None -> f <> [] -> ~ In 47%N f -> ~ In 47%N (backup_name o f) ->
+  lookup (fs w) f = Some (Reg c0 mode0) -> lookup (fs w) (backup_name o f) = None ->
+  existsb (str_eqb (backup_name o f)) (backed_up st) = false ->
+  owner_w (mode_before_write cf2 m1) = true ->
+  exists w',
+    finalize_writes o st [d1; d2] w = (Ok (with_backed_up st (backup_name o f)), w') /\
+    lookup (fs w') (backup_name o f) = Some (Reg c0 mode0) /\
+    lookup (fs w') f = Some (Reg data2 (mode_after_write pa2 (mode_before_write cf2 m1))) /\
+    (forall q, q <> f -> q <> backup_name o f -> lookup (fs w') q = lookup (fs w) q) /\
+    fault w' = None /\ umask w' = umask w.
+Proof. exact Proofs_DriverMore.series_backup_two. Qed.
+Print Assumptions series_backup_two.
+
+(* any series, any world, any injected failure: when some deferred write to f asks for a backup, the backup of f has not been
+   taken yet in this run, and f is not itself the backup name of a destination of the series, every write to f that
+   finalize_writes performs comes after the operation that takes the backup of f (the rename of f to its backup name, or,
+   when f is not there, the creation of the empty backup file) *)
+Theorem backup_before_first_write : forall o st ds f w,
+  (exists d, In d ds /\ d_dest d = f /\ d_backup d = true) ->
+  (forall d, In d ds -> backup_name o (d_dest d) <> f) ->
+  existsb (str_eqb (backup_name o f)) (backed_up st) = false ->
+  exists ext, trace (snd (finalize_writes o st ds w)) = trace w ++ ext /\
+    forall pre data post, ext = pre ++ OWrite f data :: post -> Exists (is_backup_of o f) pre.
+Proof. exact Proofs_DriverMore.backup_before_first_write. Qed.
+Print Assumptions backup_before_first_write.
+
+(* the same series under -b (C18 and C17 together): one backup, taken before the first of the two deferred writes; it holds
+   the content and the mode f had before the run *)
+Theorem git_series_backup : forall o p1 p2 f A0 A1 A2 st s1 s2 w data m0,
+  git_options o -> save_backup o = true -> reverse_patch_opt o = false ->
+  pfmt p1 = FGit -> poper p1 = OpChange -> prereq p1 = [] -> old_path p1 = f -> new_path p1 = f ->
+  new_mode p1 <> 0%N -> is_symlink_mode (new_mode p1) = false -> owner_w (N.land (new_mode p1) 4095) = true ->
+  pfmt p2 = FGit -> poper p2 = OpChange -> prereq p2 = [] -> old_path p2 = f -> new_path p2 = f ->
+  new_mode p2 = 0%N ->
+  f <> devnull -> f <> [] -> ~ In 47%N f -> ~ In 47%N (backup_name o f) ->
+  Conforming A0 A1 (hunks p1) -> Conforming A1 A2 (hunks p2) ->
+  split_lines (lines_bytes (newline_output o) A1) = A1 ->
+  (remove_empty_files o <> OBYes \/
+   (lines_bytes (newline_output o) A1 <> [] /\ lines_bytes (newline_output o) A2 <> [])) ->
+  (Z.of_nat (length A0) < MAXZ)%Z -> (Z.of_nat (length A1) < MAXZ)%Z ->
+  fault w = None -> deferred_writes st = [] -> deferred_removals st = [] ->
+  existsb (str_eqb (backup_name o f)) (backed_up st) = false ->
+  lookup (fs w) f = Some (Reg data m0) -> (m0 < 4096)%N -> owner_r m0 = true ->
+  (N.land m0 write_mask <> 0%N \/ read_only o <> ROFail) ->
+  lookup (fs w) (backup_name o f) = None ->
+  split_lines data = A0 ->
+  let pm1 := N.land (new_mode p1) 4095 in
+  exists st1 w1 st2 w2 st3 w3 w4,
+    process_section o st false p1 s1 w = (Ok (st1, s1), w1) /\ fs w1 = fs w /\
+    process_section o st1 false p2 s2 w1 = (Ok (st2, s2), w2) /\ fs w2 = fs w /\
+    finalize_writes o st2 (deferred_writes st2) w2 = (Ok st3, w3) /\
+    finalize_removals (deferred_writes st2) (deferred_removals st2) w3 = (Ok tt, w4) /\
+    lookup (fs w4) (backup_name o f) = Some (Reg data m0) /\
+    lookup (fs w4) f = Some (Reg (lines_bytes (newline_output o) A2) pm1) /\
+    (forall q, q <> f -> q <> backup_name o f -> lookup (fs w4) q = lookup (fs w) q) /\
+    had_failure st3 = had_failure st /\ events st3 = events st /\ backed_up st3 = backup_name o f :: backed_up st /\
+    fault w4 = None /\ umask w4 = umask w.
+Proof. exact Proofs_DriverMore.git_series_backup. Qed.
+Print Assumptions git_series_backup.
+
